@@ -76,8 +76,10 @@ func (c *Ctx) EmptyBatchGuard(prop string) {
 		for _, ret := range an.Returns(fn) {
 			v := an.Result(ret, 0)
 			okLen := false
-			var walk func(x ssa.Value, in ssa.Value, d int) bool
-			walk = func(x ssa.Value, in ssa.Value, d int) bool {
+			// isLen(v): v equals len(<the entry list>) in the current frame
+			type lenPred func(ssa.Value) bool
+			var walk func(x ssa.Value, in ssa.Value, isLen lenPred, d int) bool
+			walk = func(x ssa.Value, in ssa.Value, isLen lenPred, d int) bool {
 				if d > 6 {
 					return false
 				}
@@ -87,7 +89,7 @@ func (c *Ctx) EmptyBatchGuard(prop string) {
 				}
 				switch y := root.(type) {
 				case *ssa.MakeSlice:
-					return lenIs(y.Len, in)
+					return isLen(y.Len)
 				case *ssa.Call:
 					if y.Call.IsInvoke() {
 						return true // interface result: the implementation is checked separately
@@ -95,19 +97,33 @@ func (c *Ctx) EmptyBatchGuard(prop string) {
 					cal := y.Call.StaticCallee()
 					if cal != nil && prog.InModule(cal) && cal.Blocks != nil {
 						for i, a := range y.Call.Args {
-							if sliceRootExact(a) == in && i < len(cal.Params) {
-								for _, r2 := range an.Returns(cal) {
-									if !walk(an.Result(r2, 0), cal.Params[i], d+1) {
-										return false
-									}
-								}
-								return true
+							if i >= len(cal.Params) {
+								continue
 							}
+							p := cal.Params[i]
+							var inner lenPred
+							var innerIn ssa.Value
+							switch {
+							case in != nil && sliceRootExact(a) == in:
+								innerIn = p
+								inner = func(v ssa.Value) bool { return lenIs(v, p) }
+							case isLen(a):
+								// the length itself is passed
+								inner = func(v ssa.Value) bool { return v == ssa.Value(p) }
+							default:
+								continue
+							}
+							for _, r2 := range an.Returns(cal) {
+								if !walk(an.Result(r2, 0), innerIn, inner, d+1) {
+									return false
+								}
+							}
+							return true
 						}
 					}
 				case *ssa.Phi:
 					for _, e := range y.Edges {
-						if !walk(e, in, d+1) {
+						if !walk(e, in, isLen, d+1) {
 							return false
 						}
 					}
@@ -115,7 +131,7 @@ func (c *Ctx) EmptyBatchGuard(prop string) {
 				}
 				return false
 			}
-			okLen = walk(v, in, 0)
+			okLen = walk(v, in, func(n ssa.Value) bool { return lenIs(n, in) }, 0)
 			if okLen {
 				continue
 			}
